@@ -178,4 +178,18 @@ theorem C08_source_skeletons_consul :
     Gen.Skel.Lease_Close = Expected.Skel.Lease_Close :=
   ⟨rfl, rfl, rfl, rfl, rfl, rfl, rfl, rfl⟩
 
+/-- A hand-over target takes the lease only if the lease service granted its session the key: in
+    the Consul leaser's `AcquireExisting` (skeleton regenerated from consul/consul.go) the renewal
+    of the handed session comes first and its failure is returned, the key acquisition's answer
+    is tested, a refusal returns `ErrPrimaryExists`, and the lease is returned only after both
+    (facts proved by `decide` about the regenerated skeleton; seeded change C08-5 dropped the
+    test of the answer). -/
+theorem C08_handover_acquisition_checks_the_grant :
+    let sk := Gen.Skel.Leaser_AcquireExisting
+    ("if", "!acquired") ∈ sk ∧ ("return", "return nil, litefs.ErrPrimaryExists") ∈ sk ∧
+    (sk.findIdx? (· == ("call", "lease.Renew"))).getD 1000 < (sk.findIdx? (· == ("call", "l.client.KV().Acquire"))).getD 0 ∧
+    (sk.findIdx? (· == ("if", "!acquired"))).getD 1000 < (sk.findIdx? (· == ("return", "return lease, nil"))).getD 0 ∧
+    (sk.filter (· == ("return", "return lease, nil"))).length = 1 := by
+  decide
+
 end LiteFSVerif.C08
